@@ -47,16 +47,16 @@ as s16 and added to the header's inode number in 32-bit arithmetic, gives the en
 -/
 theorem dir_end_headers_ok (cmp : MetaWriter.Codec) (st : MetaWriter.St) (ents : List DEnt)
     (hnum : ∀ e ∈ ents, e.inodeNum < 4294967296) :
-    ((dirEnd cmp st ents).1.map (·.ents)).flatten = ents ∧
-    ∀ r ∈ (dirEnd cmp st ents).1,
+    ((dirEndM cmp st ents).1.map (·.ents)).flatten = ents ∧
+    ∀ r ∈ (dirEndM cmp st ents).1,
       1 ≤ r.ents.length ∧ r.ents.length ≤ 256 ∧
       ∀ e ∈ r.ents, (e.inodeRef >>> 16) % 4294967296 = r.startBlock ∧
         ((r.inodeNumber : Int) + (let d16 := (e.inodeNum + 4294967296 - r.inodeNumber % 4294967296) % 65536
                                    if d16 < 32768 then (d16 : Int) else (d16 : Int) - 65536)) % 4294967296 = e.inodeNum := by
-  have hflat := dirEndGo_flatten cmp (ents.length + 1) st 0 ents (by omega)
+  have hflat := dirEndGoM_flatten cmp (ents.length + 1) st 0 ents (by omega)
   refine ⟨hflat, ?_⟩
   intro r hr
-  obtain ⟨first, tl, h1, h2, h3, h4, h5⟩ := dirEndGo_runs_ok cmp _ _ _ _ r hr
+  obtain ⟨first, tl, h1, h2, h3, h4, h5⟩ := dirEndGoM_runs_ok cmp _ _ _ _ r hr
   have hsub : ∀ e ∈ r.ents, e ∈ ents := by
     intro e he
     rw [← hflat]
@@ -129,35 +129,35 @@ announce) and
 The fields are u32 (`% 2^32`): exact for listings and directory tables below 4 GiB.
 -/
 theorem dir_index_points_at_headers (cmp : MetaWriter.Codec) (st : MetaWriter.St) (hst : MetaWriter.WF cmp st)
-    (ents : List DEnt) (fin : MetaWriter.St) (hfin : MetaWriter.Ext (dirEnd cmp st ents).2 fin)
+    (ents : List DEnt) (fin : MetaWriter.St) (hfin : MetaWriter.Ext (dirEndM cmp st ents).2 fin)
     (hl x p k : Nat) (ie : Nat × Nat × Bytes)
-    (hk : (createInode (dirRefOf st) (dirEnd cmp st ents).1 ents.length hl x p).index[k]? = some ie) :
-    ∃ r first tl, (dirEnd cmp st ents).1[k]? = some r ∧ r.ents = first :: tl ∧
+    (hk : (createInode (dirRefOf st) (dirEndM cmp st ents).1 ents.length hl x p).index[k]? = some ie) :
+    ∃ r first tl, (dirEndM cmp st ents).1[k]? = some r ∧ r.ents = first :: tl ∧
       ie = (r.index % 4294967296, r.block % 4294967296, first.name) ∧
-      r.index = ((((dirEnd cmp st ents).1.take k).map encodeRun).flatten).length ∧
-      MetaWriter.stream (dirEnd cmp st ents).2 = MetaWriter.stream st ++ ((dirEnd cmp st ents).1.map encodeRun).flatten ∧
+      r.index = ((((dirEndM cmp st ents).1.take k).map encodeRun).flatten).length ∧
+      MetaWriter.stream (dirEndM cmp st ents).2 = MetaWriter.stream st ++ ((dirEndM cmp st ents).1.map encodeRun).flatten ∧
       r.block = MetaWriter.outBytes (fin.out.take (((MetaWriter.stream st).length + r.index) / 8192)) ∧
       ((MetaWriter.stream st).length + r.index) % 8192 = ((dirRefOf st) % 65536 + r.index) % 8192 := by
-  unfold dirEnd at hk hfin ⊢
-  obtain ⟨_, _, p3, p4⟩ := dirEndGo_pos cmp (ents.length + 1) st 0 ents hst (by omega)
+  unfold dirEndM at hk hfin ⊢
+  obtain ⟨_, _, p3, p4⟩ := dirEndGoM_pos cmp (ents.length + 1) st 0 ents hst (by omega)
   -- the index entry comes from run k
-  have hidx : ∃ r, (dirEndGo cmp (ents.length + 1) st 0 ents).1[k]? = some r ∧
+  have hidx : ∃ r, (dirEndGoM cmp (ents.length + 1) st 0 ents).1[k]? = some r ∧
       ie = (r.index % 4294967296, r.block % 4294967296, match r.ents with | e :: _ => e.name | [] => []) := by
     unfold createInode createInodeCap at hk
     simp only at hk
     split at hk
     · simp only [List.getElem?_map, List.getElem?_take] at hk
       split at hk
-      · cases hr : (dirEndGo cmp (ents.length + 1) st 0 ents).1[k]? with
+      · cases hr : (dirEndGoM cmp (ents.length + 1) st 0 ents).1[k]? with
         | none => rw [hr] at hk; simp at hk
         | some r => rw [hr] at hk; simp only [Option.map_some, Option.some.injEq] at hk; exact ⟨r, rfl, hk.symm⟩
       · simp at hk
     · simp at hk
   obtain ⟨r, hr, hie⟩ := hidx
-  obtain ⟨first, tl, q1, _⟩ := dirEndGo_runs_ok cmp _ _ _ _ r (List.mem_of_getElem? hr)
+  obtain ⟨first, tl, q1, _⟩ := dirEndGoM_runs_ok cmp _ _ _ _ r (List.mem_of_getElem? hr)
   obtain ⟨a1, a2, a3⟩ := p4 k r hr
   refine ⟨r, first, tl, hr, q1, by rw [hie, q1], by simpa using a1, p3, ?_, ?_⟩
-  · -- blocks flushed by the time `dirEnd` returns are a prefix of `fin.out`
+  · -- blocks flushed by the time `dirEndM` returns are a prefix of `fin.out`
     obtain ⟨bs, hbs⟩ := hfin
     rw [a3]
     simp only [Nat.sub_zero] at a2 ⊢
@@ -341,15 +341,15 @@ the blocks unpack to the table, and all but the last hold exactly 8192 bytes, so
 entries (`e` divides 8192) is found in block `k·e / 8192` at offset `k·e mod 8192`.
 -/
 theorem write_table_locations (cmp : Codec) (base : Nat) (data : Bytes) :
-    (writeTable cmp base data).locs.length = (writeTable cmp base data).blocks.length ∧
-    (writeTable cmp base data).blocks.length = (data.length + 8191) / 8192 ∧
-    (∀ i, i < (writeTable cmp base data).locs.length →
-      (writeTable cmp base data).locs[i]? = some (base + outBytes ((writeTable cmp base data).blocks.take i))) ∧
-    (writeTable cmp base data).start = base + outBytes (writeTable cmp base data).blocks ∧
-    (((writeTable cmp base data).blocks.map (·.raw)).flatten = data) ∧
-    (∀ i, i + 1 < (writeTable cmp base data).blocks.length →
-      ((writeTable cmp base data).blocks[i]?.map (·.raw.length)) = some 8192) :=
-  writeTable_spec cmp base data
+    (writeTableM cmp base data).locs.length = (writeTableM cmp base data).blocks.length ∧
+    (writeTableM cmp base data).blocks.length = (data.length + 8191) / 8192 ∧
+    (∀ i, i < (writeTableM cmp base data).locs.length →
+      (writeTableM cmp base data).locs[i]? = some (base + outBytes ((writeTableM cmp base data).blocks.take i))) ∧
+    (writeTableM cmp base data).start = base + outBytes (writeTableM cmp base data).blocks ∧
+    (((writeTableM cmp base data).blocks.map (·.raw)).flatten = data) ∧
+    (∀ i, i + 1 < (writeTableM cmp base data).blocks.length →
+      ((writeTableM cmp base data).blocks[i]?.map (·.raw.length)) = some 8192) :=
+  writeTableM_spec cmp base data
 
 /--
 A meta writer created with `SQFS_META_WRITER_KEEP_IN_MEMORY` (the directory table): nothing reaches the file before
@@ -551,7 +551,7 @@ open Sqfs.DirWriter Sqfs.MetaWriter Sqfs.IdTable
 def toyCodec0 : Codec := fun _ => none
 
 /-- two entries in one inode block, then one in another block → two headers (2 + 1), indexed at listing offsets 0 and 30 -/
-example : (dirEnd (fun _ => none) {} [⟨0x10020, 5, 2, [97]⟩, ⟨0x10040, 6, 2, [98]⟩, ⟨0x20000, 7, 2, [99]⟩]).1.map
+example : (dirEndM (fun _ => none) {} [⟨0x10020, 5, 2, [97]⟩, ⟨0x10040, 6, 2, [98]⟩, ⟨0x20000, 7, 2, [99]⟩]).1.map
     (fun r => (r.ents.length, r.index, r.block)) = [(2, 0, 0), (1, 30, 0)] := by
   decide
 
@@ -596,7 +596,7 @@ example : C03Inode.WF C03Inode.fresh ∧
   ⟨C03Inode.wf_fresh, by decide, by decide⟩
 
 /-- a 5-byte table at file offset 100: one block of 5 + 2 bytes, its location 100, the list starts at 107 -/
-example : (writeTable toyCodec 100 [1, 2, 3, 4, 5]).locs = [100] ∧ (writeTable toyCodec 100 [1, 2, 3, 4, 5]).start = 106 := by
+example : (writeTableM toyCodec 100 [1, 2, 3, 4, 5]).locs = [100] ∧ (writeTableM toyCodec 100 [1, 2, 3, 4, 5]).start = 106 := by
   decide
 
 example : Sqfs.Numbering.numberRoot [.file, .dir [.file, .hlink 0, .dir [.file]], .file] =
